@@ -479,6 +479,32 @@ Proof.
   split; [vm_compute; discriminate|]. vm_compute. reflexivity.
 Qed.
 
+(* SRP sessions and tickets (open finding fallback-broken:ticket-tls12-srp:server-alert-40): the ticket
+   payload has no SRP user name, the session rebuilt from it has none, and the consistency check aborts an
+   honest client that offers its own SRP session.  History: [SRP handshake of user 1 with ticket; close];
+   the same client offers the session: handshake_failure from the server. *)
+Definition wit_cp_srp (offer : option Z) : cparams :=
+  {| cp_srv := 0; cp_maxv := 3; cp_suites := [49185; 49182]; cp_ems := true; cp_etm := true; cp_sni := 1;
+     cp_srp := 1; cp_ccert := 0; cp_offer := offer; o_acc := [49185; 49182]; o_fsuite := 49185; o_fcbc := true;
+     o_fhash := 256; o_falert := 40 |}.
+Definition wit_srp_history : list event := [EConn (wit_cp_srp None); EClose 0 0].
+
+Lemma srp_ticket_offer_aborts_witness :
+  let w := srun [wit_cfg 3 [1] 400] wit_srp_history in
+  let cp := wit_cp_srp (Some 0) in
+  exists sv h used b p,
+    zget (w_servers w) 0 = Some sv /\
+    client_offer sblob cp (offered sblob w cp) (w_now w) (w_fresh w) = Offer sblob h used /\
+    h_ticket h = Some b /\ sopen 1 b = Some p /\ In 1 (sv_keys (sv_cfg sv)) /\
+    w_now w <= p_created p + sv_life (sv_cfg sv) /\ h_srp h = 1 /\
+    r_out (d_log sblob (conn_delta sblob Sealed sopen w cp sv)) = OAbortS handshake_failure.
+Proof.
+  cbv zeta. do 5 eexists.
+  split; [vm_compute; reflexivity|]. split; [vm_compute; reflexivity|]. split; [vm_compute; reflexivity|].
+  split; [vm_compute; reflexivity|]. split; [vm_compute; auto|]. split; [vm_compute; discriminate|].
+  split; vm_compute; reflexivity.
+Qed.
+
 (* stateless tickets: the server saw the connection die abruptly, the ticket still resumes *)
 Definition wit_ticket_survives : list event := [EConn (wit_cp 3 None 1 49199); EClose 0 2].
 
